@@ -201,6 +201,27 @@ static void bbox(const std::vector<Vec2>& v, Vec2& lo, Vec2& hi) {
     for (auto& p : v) { lo.x = std::min(lo.x, p.x); lo.y = std::min(lo.y, p.y); hi.x = std::max(hi.x, p.x); hi.y = std::max(hi.y, p.y); }
 }
 
+// Before a COPIED repetition is read, its list must at least be addressable over count x item size: a copy
+// whose block is too small would otherwise end the worker with a sanitizer abort carrying no case tags.
+#if defined(__SANITIZE_ADDRESS__)
+#include <sanitizer/asan_interface.h>
+static bool readable(const void* p, size_t n) { return n == 0 || (p && !__asan_region_is_poisoned((void*)p, n)); }
+#else
+static bool readable(const void* p, size_t n) { return n == 0 || p; }
+#endif
+static bool storage_ok(const Repetition& r) {
+    if (r.type == RepetitionType::Explicit) return readable(r.offsets.items, r.offsets.count * sizeof(Vec2));
+    if (r.type == RepetitionType::ExplicitX || r.type == RepetitionType::ExplicitY) return readable(r.coords.items, r.coords.count * sizeof(double));
+    return true;
+}
+static void storage_violation(const char* sub, int ri, const std::string& via, const Repetition& r, const std::string& rp) {
+    JFields tags = base_tags(ALPHA[ri], info_of(ALPHA[ri]));
+    tags.push_back({"via", jstr(via)});
+    uint64_t n = r.type == RepetitionType::Explicit ? r.offsets.count : r.coords.count;
+    R->violation(sub, "copy-storage-too-small", tags, jobj({{"repetition", spec_json(ALPHA[ri])}, {"obtained", jstr(via)}}),
+                 fmt("the copied repetition reports %llu stored entries but its list is not addressable over %llu x item size bytes: enumerating or applying it reads beyond the copied block", (unsigned long long)n, (unsigned long long)n), rp);
+}
+
 // ------------------------------------------------------------------------------------------ "set"
 static const Vec2 SENTINEL = {12345.5, -54321.25};
 // via: how the repetition under test was obtained ("direct" = the struct the list was set on)
@@ -301,6 +322,12 @@ static void check_transform(int ri, int only_t, bool copied = false) {
             r.clear();
             r = c;
             R->count("transform_cases_on_copies");
+            if (!storage_ok(r)) {
+                R->count("cases");
+                storage_violation("transform", ri, "Repetition::copy_from (source cleared)", r, fmt("sub=transform rep=%d t=%d cp=1", ri, t));
+                r.clear();
+                continue;
+            }
         }
         r.transform(m, refl, rot);
         std::vector<Vec2> got = dump::own_offsets(r);  // field walk of the transformed struct
@@ -612,13 +639,21 @@ static void check_set_via_element(int ri) {
     std::string before = dump::repetition(Ops::rep(*e));
     T* c = (T*)allocate_clear(sizeof(T));
     c->copy_from(*e);
+    std::string via = std::string(Ops::name()) + "::copy_from (source element destroyed)";
+    if (!storage_ok(Ops::rep(*c))) {
+        R->count("cases");
+        storage_violation("set", ri, via, Ops::rep(*c), fmt("sub=set rep=%d", ri));
+        Ops::destroy(e);
+        Ops::destroy(c);
+        return;
+    }
     if (dump::repetition(Ops::rep(*e)) != before) {
         JFields tags = base_tags(ALPHA[ri], info_of(ALPHA[ri]));
         tags.push_back({"via", jstr(std::string(Ops::name()) + "::copy_from")});
         R->violation("set", "copy-changed-source", tags, jobj({{"repetition", spec_json(ALPHA[ri])}}), "the source element's repetition changed when the element was copied: " + dump::repetition(Ops::rep(*e)), fmt("sub=set rep=%d", ri));
     }
     Ops::destroy(e);
-    check_set_on(ri, Ops::rep(*c), std::string(Ops::name()) + "::copy_from (source element destroyed)");
+    check_set_on(ri, Ops::rep(*c), via);
     Ops::destroy(c);
 }
 static void check_set(int ri) {
@@ -638,12 +673,19 @@ static void check_set(int ri) {
     memset(&cc, 0, sizeof cc);
     c.copy_from(r);
     src_check("copy-changed-source", "when it was copied");
-    check_set_on(ri, c, "Repetition::copy_from");
-    cc.copy_from(c);
-    c.clear();
-    src_check("clearing-copy-disturbed-source", "when its copy was cleared");
-    check_set_on(ri, cc, "copy of a copy (intermediate copy cleared)");
-    cc.clear();
+    if (!storage_ok(c)) {
+        R->count("cases");
+        storage_violation("set", ri, "Repetition::copy_from", c, fmt("sub=set rep=%d", ri));
+        c.clear();
+    } else {
+        check_set_on(ri, c, "Repetition::copy_from");
+        cc.copy_from(c);
+        c.clear();
+        src_check("clearing-copy-disturbed-source", "when its copy was cleared");
+        if (!storage_ok(cc)) { R->count("cases"); storage_violation("set", ri, "copy of a copy (intermediate copy cleared)", cc, fmt("sub=set rep=%d", ri)); }
+        else check_set_on(ri, cc, "copy of a copy (intermediate copy cleared)");
+        cc.clear();
+    }
     check_set_on(ri, r, "source after its copies were cleared");
     r.clear();
     check_set_via_element<PolyOps>(ri);
@@ -716,6 +758,16 @@ static void apply_body(int ri, int prefill, int variant, int copied) {
         src_dump = Ops::dumps(*e);
         T* c1 = (T*)allocate_clear(sizeof(T));
         c1->copy_from(*e);
+        if (!storage_ok(Ops::rep(*c1))) {
+            R->count("cases");
+            JFields t2 = tags;
+            R->violation("apply", "copy-storage-too-small", t2, jobj({{"element", jstr(Ops::name())}, {"repetition", spec_json(s)}, {"element_obtained", jstr(COPIED_NAME[copied])}}),
+                         std::string(Ops::name()) + "::copy_from produced a repetition whose list is not addressable over count x item size bytes; applying it would read beyond the copied block", rp);
+            Ops::destroy(c1);
+            Ops::destroy(e);
+            Ops::destroy(e0);
+            return;
+        }
         bool src_same = Ops::dumps(*e) == src_dump;
         if (copied == 1) {
             Ops::destroy(e);
